@@ -30,7 +30,10 @@ func c13Strings(e *core.Env) []string {
 		"\") ; x := http.send({", "\"] = 1 #", "- ", "&a", "*", "|", ">", "~", "null", "true", "1e3",
 		// characters that need care when pasted into source text: other controls, DEL, no-break space, zero-width joiner, line separator,
 		// an emoji flag spelt with astral TAG characters, a plane-16 private-use character, an ANSI colour sequence
-		"\x1b[31m", "\f", "\v", "\x01", "\x7f", "\u00a0", "\u200d", "\u2028", "\U0001F3F4\U000E0067\U000E0062\U000E0065\U000E006E\U000E0067\U000E007F", "\U0010FFFD", "\r"}
+		"\x1b[31m", "\f", "\v", "\x01", "\x7f", "\u00a0", "\u200d", "\u2028", "\U0001F3F4\U000E0067\U000E0062\U000E0065\U000E006E\U000E0067\U000E007F", "\U0010FFFD", "\r",
+		// a byte-order mark (the engine refuses it unescaped anywhere in a module), the paragraph separator, and the TEXT of the
+		// escapes the report encoder writes for such characters
+		"\ufeff", "\u2029", "\\u2028", "\\ufeff", "\\u0000"}
 	out := []string{}
 	seen := map[string]bool{}
 	add := func(s string) {
